@@ -4,18 +4,18 @@
 From H2T Require Import Base Tagged Wrap.
 From Coq Require Import Lia ZifyN ZifyBool ZifyNat.
 
-Arguments N.add : simpl never.
-Arguments N.sub : simpl never.
-Arguments N.mul : simpl never.
-Arguments N.div : simpl never.
-Arguments N.modulo : simpl never.
-Arguments N.leb : simpl never.
-Arguments N.ltb : simpl never.
-Arguments N.eqb : simpl never.
-Arguments N.min : simpl never.
-Arguments N.max : simpl never.
-Arguments N.to_nat : simpl never.
-Arguments N.of_nat : simpl never.
+Local Arguments N.add : simpl never.
+Local Arguments N.sub : simpl never.
+Local Arguments N.mul : simpl never.
+Local Arguments N.div : simpl never.
+Local Arguments N.modulo : simpl never.
+Local Arguments N.leb : simpl never.
+Local Arguments N.ltb : simpl never.
+Local Arguments N.eqb : simpl never.
+Local Arguments N.min : simpl never.
+Local Arguments N.max : simpl never.
+Local Arguments N.to_nat : simpl never.
+Local Arguments N.of_nat : simpl never.
 Local Open Scope N_scope.
 
 (* ------------------------------------------------------------------ *)
@@ -618,7 +618,7 @@ Qed.
 (* ------------------------------------------------------------------ *)
 (* the tab loop of add_text *)
 
-Ltac Zify.zify_post_hook ::= Z.to_euclidean_division_equations.
+Local Ltac Zify.zify_post_hook ::= Z.to_euclidean_division_equations.
 
 (* iterations still needed once at least one space has been emitted *)
 Definition tabm (pos : N) : nat :=
@@ -1147,24 +1147,28 @@ Proof. vm_compute. repeat split. Qed.
 (* direct check of every clause of Inv on that state (not via the theorems) *)
 Example ex_block_Inv : Inv ex_block.
 Proof.
-  unfold Inv. split; [vm_compute; discriminate|].
-  split; [split; [reflexivity|vm_compute; discriminate]|].
+  assert (E : ex_block = ltac:(let v := eval vm_compute in ex_block in exact v))
+    by (vm_compute; reflexivity).
+  rewrite E. clear E. unfold Inv. prj.
+  split; [lia|].
+  split; [split; [vm_compute; reflexivity|cbn [tlen_]; lia]|].
   split.
-  { intros l Hin. vm_compute in Hin.
-    repeat (destruct Hin as [<-|Hin]; [split; [reflexivity|intros _; vm_compute; discriminate]|]).
+  { intros l Hin. cbn [In] in Hin.
+    repeat (destruct Hin as [<-|Hin];
+            [split; [vm_compute; reflexivity|intros _; vm_compute; discriminate]|]).
     contradiction. }
-  split; [reflexivity|].
-  split; [intros _; vm_compute; discriminate|].
-  vm_compute. repeat (constructor; try discriminate).
+  split; [vm_compute; reflexivity|].
+  split; [intros _; discriminate|].
+  repeat (constructor; try discriminate).
 Qed.
 
 Example ex_run :
   exists ls, run 5 false false [CText ex_text WsNormal [] []; CFrag []] = Ok ls /\
-             length ls = 5%nat /\
-             map tlen_ ls = [3; 3; 5; 4; 0] /\
+             length ls = 4%nat /\
+             map tlen_ ls = [3; 3; 5; 4] /\
              forall l, In l ls -> tl_width_raw l <= 5.
 Proof.
-  eexists. split; [vm_compute; reflexivity|]. split; [reflexivity|]. split; [reflexivity|].
+  eexists. split; [vm_compute; reflexivity|]. split; [vm_compute; reflexivity|]. split; [vm_compute; reflexivity|].
   intros l Hin.
   repeat (destruct Hin as [<-|Hin]; [vm_compute; discriminate|]). contradiction.
 Qed.
@@ -1174,7 +1178,20 @@ Qed.
 Example ex_wide :
   run 1 false false [CText [mk 19990 2] WsNormal [] []] = TooNarrow /\
   exists l, run 1 false true [CText [mk 19990 2] WsNormal [] []] = Ok [l] /\ tl_width_raw l = 2.
-Proof. split; [reflexivity|]. eexists. split; reflexivity. Qed.
+Proof. split; [vm_compute; reflexivity|]. eexists. split; vm_compute; reflexivity. Qed.
+
+(* Why the theorems cover wb_add_element only for Frag: pushing a non-empty Str
+   through wb_add_element leaves wordlen stale (the model, like the Rust code,
+   does not update it), so Inv is NOT preserved and an over-wide line can be
+   emitted even with allow_overflow = false. *)
+Definition ex_bad : wblock :=
+  wb_add_element (wb_new 5 false false) (Str (of_ascii [97;98;99;100;101;102;103;104]) []).
+Example ex_add_str_breaks_Inv :
+  wordlen ex_bad = 0 /\ word_width (wword ex_bad) = 8 /\
+  exists l, wb_into_lines ex_bad = Ok [l] /\ tl_width_raw l = 8.
+Proof.
+  vm_compute. split; [reflexivity|]. split; [reflexivity|]. eexists. split; reflexivity.
+Qed.
 
 Print Assumptions wb_new_Inv.
 Print Assumptions force_flush_line_total.
